@@ -534,6 +534,8 @@ pub fn gen_family_spec(family: &str, seed: u64, index: usize) -> Spec {
             let mut g = Gen { rng: &mut rng, cfg };
             match family {
                 "recover" => gen_recover_spec(&mut g),
+                "scope" => gen_scope_spec(&mut g),
+                "realistic" => gen_realistic_spec(&mut g),
                 _ => g.gen_spec(),
             }
         }
@@ -1039,4 +1041,267 @@ pub fn mk_opts(name: &str, paren: Paren, desugar: bool, seed: u64) -> PrintOpts 
     o.desugar = desugar;
     o.seed = seed;
     o
+}
+
+
+// ---------------------------------------------------------------------------------------------
+// scoping family (C16): the same local name bound differently in different rule sets, top-level
+// names used everywhere
+
+fn gen_scope_spec(g: &mut Gen) -> Spec {
+    for _ in 0..200 {
+        g.cfg.letters = vec!['a', 'b', 'c'];
+        g.cfg.depth = 2;
+        let n_sets = g.rng.range(2, 4);
+        let names: Vec<String> = ["Init", "A", "B", "C"].iter().take(n_sets).map(|s| s.to_string()).collect();
+        let top_re = g.gen_nonnull(1);
+        let mut sets = vec![];
+        for (i, name) in names.iter().enumerate() {
+            let mut entries = vec![];
+            // local binding `x` differs per set
+            let local = g.gen_nonnull(1);
+            let has_local = g.rng.chance(4, 5);
+            if has_local {
+                entries.push(Entry::Let("x".to_string(), local));
+            }
+            // a second local that refers to the first and to the top-level one
+            let has_y = has_local && g.rng.chance(1, 2);
+            if has_y {
+                entries.push(Entry::Let(
+                    "y".to_string(),
+                    Re::alt(Re::cat(Re::var("x"), Re::var("t")), g.gen_nonnull(0)),
+                ));
+            }
+            let mk = |re: Re, sw: Option<String>, v: u32| Rule {
+                id: 0,
+                re,
+                ctx: None,
+                act: Action::Do(vec![(
+                    Guard::Always,
+                    Outcome {
+                        reset: false,
+                        switch: sw,
+                        fin: Fin::Return(v),
+                    },
+                )]),
+            };
+            let next = names[(i + 1) % names.len()].clone();
+            if has_local {
+                entries.push(Entry::Rule(mk(Re::cat(Re::var("x"), Re::Chr('c')), Some(next.clone()), 1)));
+            }
+            if has_y {
+                entries.push(Entry::Rule(mk(Re::plus(Re::var("y")), None, 2)));
+            }
+            entries.push(Entry::Rule(mk(Re::cat(Re::var("t"), g.gen_atom()), Some(next.clone()), 3)));
+            entries.push(Entry::Rule(mk(g.gen_nonnull(1), Some(next), 4)));
+            sets.push(RuleSet {
+                name: name.clone(),
+                entries,
+            });
+        }
+        let mut spec = Spec {
+            error_type: false,
+            named: true,
+            lets: vec![("t".to_string(), top_re)],
+            sets,
+        };
+        spec.renumber();
+        if check_wf(&spec).is_ok() {
+            return spec;
+        }
+    }
+    panic!("scope generator failed");
+}
+
+// ---------------------------------------------------------------------------------------------
+// realistic family: 20-60 rules, keywords, identifiers, numbers, operators, strings via a rule
+// set, comments, one right context
+
+fn gen_realistic_spec(g: &mut Gen) -> Spec {
+    let rng = &mut *g.rng;
+    let ret = |v: u32| Action::Do(vec![(Guard::Always, Outcome::ret(v))]);
+    let mut init: Vec<Entry> = vec![];
+    let use_xid = rng.chance(1, 2);
+    // lets
+    let ident_start = if use_xid {
+        Re::bi("XID_Start")
+    } else {
+        Re::Set(vec![SetItem::R('a', 'z'), SetItem::R('A', 'Z'), SetItem::C('_')])
+    };
+    let ident_cont = if use_xid {
+        Re::bi("XID_Continue")
+    } else {
+        Re::Set(vec![SetItem::R('a', 'z'), SetItem::R('A', 'Z'), SetItem::R('0', '9'), SetItem::C('_')])
+    };
+    let lets = vec![
+        ("ws".to_string(), Re::Set(vec![SetItem::C(' '), SetItem::C('\t'), SetItem::C('\n')])),
+        ("digit".to_string(), Re::range('0', '9')),
+        ("id_start".to_string(), ident_start),
+        ("id_cont".to_string(), ident_cont),
+    ];
+    init.push(Entry::Rule(Rule {
+        id: 0,
+        re: Re::plus(Re::var("ws")),
+        ctx: None,
+        act: Action::Skip,
+    }));
+    // keywords
+    let n_kw = rng.range(8, 35);
+    let mut kws = std::collections::BTreeSet::new();
+    while kws.len() < n_kw {
+        let n = rng.range(2, 6);
+        let w: String = (0..n).map(|_| *rng.pick(&['a', 'b', 'c', 'd', 'e', 'f', 'i', 'n', 't'])).collect();
+        kws.insert(w);
+    }
+    for (i, w) in kws.iter().enumerate() {
+        init.push(Entry::Rule(Rule {
+            id: 0,
+            re: Re::str(w),
+            ctx: None,
+            act: if i % 3 == 0 { ret(1) } else { Action::Simple(1) },
+        }));
+    }
+    // identifiers
+    init.push(Entry::Rule(Rule {
+        id: 0,
+        re: Re::cat(Re::var("id_start"), Re::star(Re::var("id_cont"))),
+        ctx: None,
+        act: ret(2),
+    }));
+    // numbers: integer (only when not followed by an identifier start), float, hex
+    init.push(Entry::Rule(Rule {
+        id: 0,
+        re: Re::plus(Re::var("digit")),
+        ctx: Some(Re::alt(Re::diff(Re::Any, Re::Set(vec![SetItem::R('a', 'z')])), Re::Eoi)),
+        act: ret(3),
+    }));
+    init.push(Entry::Rule(Rule {
+        id: 0,
+        re: Re::cat(
+            Re::plus(Re::var("digit")),
+            Re::cat(Re::Chr('.'), Re::plus(Re::var("digit"))),
+        ),
+        ctx: None,
+        act: ret(3),
+    }));
+    init.push(Entry::Rule(Rule {
+        id: 0,
+        re: Re::cat(Re::str("0x"), Re::plus(Re::bi("ascii_hexdigit"))),
+        ctx: None,
+        act: ret(3),
+    }));
+    // operators
+    let ops = ["+", "-", "*", "/", "==", "=", "<=", "<", ">=", ">", "->", "=>", "::", ":", ";", ",", ".", "..", "...", "(", ")", "{", "}", "&&", "&", "||", "|", "!", "!="];
+    let n_ops = rng.range(6, ops.len());
+    for o in ops.iter().take(n_ops) {
+        init.push(Entry::Rule(Rule {
+            id: 0,
+            re: if o.chars().count() == 1 { Re::Chr(o.chars().next().unwrap()) } else { Re::str(o) },
+            ctx: None,
+            act: Action::Simple(4),
+        }));
+    }
+    // strings and comments
+    init.push(Entry::Rule(Rule {
+        id: 0,
+        re: Re::Chr('"'),
+        ctx: None,
+        act: Action::Do(vec![(
+            Guard::Always,
+            Outcome {
+                reset: false,
+                switch: Some("Str".into()),
+                fin: Fin::Continue,
+            },
+        )]),
+    }));
+    init.push(Entry::Rule(Rule {
+        id: 0,
+        re: Re::str("/*"),
+        ctx: None,
+        act: Action::Do(vec![(
+            Guard::Always,
+            Outcome {
+                reset: true,
+                switch: Some("Cmt".into()),
+                fin: Fin::Continue,
+            },
+        )]),
+    }));
+    init.push(Entry::Rule(Rule {
+        id: 0,
+        re: Re::cat(Re::str("//"), Re::star(Re::diff(Re::Any, Re::Chr('\n')))),
+        ctx: None,
+        act: Action::Skip,
+    }));
+    let strs = vec![
+        Entry::Rule(Rule {
+            id: 0,
+            re: Re::str("\\\""),
+            ctx: None,
+            act: Action::Do(vec![(Guard::Always, Outcome::cont())]),
+        }),
+        Entry::Rule(Rule {
+            id: 0,
+            re: Re::Chr('"'),
+            ctx: None,
+            act: Action::Do(vec![(
+                Guard::Always,
+                Outcome {
+                    reset: false,
+                    switch: Some("Init".into()),
+                    fin: Fin::Return(5),
+                },
+            )]),
+        }),
+        Entry::Rule(Rule {
+            id: 0,
+            re: Re::Any,
+            ctx: None,
+            act: Action::Do(vec![(Guard::Always, Outcome::cont())]),
+        }),
+    ];
+    let cmt = vec![
+        Entry::Rule(Rule {
+            id: 0,
+            re: Re::str("*/"),
+            ctx: None,
+            act: Action::Do(vec![(
+                Guard::Always,
+                Outcome {
+                    reset: true,
+                    switch: Some("Init".into()),
+                    fin: Fin::Continue,
+                },
+            )]),
+        }),
+        Entry::Rule(Rule {
+            id: 0,
+            re: Re::Any,
+            ctx: None,
+            act: Action::Skip,
+        }),
+    ];
+    let mut spec = Spec {
+        error_type: false,
+        named: true,
+        lets,
+        sets: vec![
+            RuleSet {
+                name: "Init".into(),
+                entries: init,
+            },
+            RuleSet {
+                name: "Str".into(),
+                entries: strs,
+            },
+            RuleSet {
+                name: "Cmt".into(),
+                entries: cmt,
+            },
+        ],
+    };
+    spec.renumber();
+    check_wf(&spec).expect("realistic spec must be well-formed");
+    spec
 }
